@@ -74,6 +74,26 @@ def family(n, maxclauses, maxbody, neg, co, seed=None, sample=None, allow_neg_on
         p["id"] = i
     return out
 
+def smoke(co_variants=True):
+    """A fixed list of structured programs that random sampling of the families rarely hits: a cycle a1 -> a2 -> a1 whose head a1
+    fails (or succeeds) late because of another condition a4, and a reader a3 of the cycle member a2 that is evaluated while the
+    cycle is still provisional -- in every order of the head's conditions, inductive and coinductive."""
+    out = []
+    bodies3 = list(itertools.permutations(["a4", "a3", "a2"]))
+    for body in bodies3:
+        for a4fact in (False, True):
+            base = [("a1", tuple((True, x) for x in body)), ("a2", ((True, "a1"),)), ("a3", ((True, "a2"),))] + ([("a4", ())] if a4fact else [])
+            for co in ([["a1", "a2", "a3"], []] if co_variants else [[]]):
+                out.append({"clauses": base, "co": co})
+    for body in itertools.permutations(["a3", "a2"]):
+        for extra in ([("a3", ((True, "a2"), (True, "a4")))], [("a3", ((True, "a4"), (True, "a2")))], [("a3", ((True, "a2"),)), ("a4", ((True, "a3"),))]):
+            base = [("a1", tuple((True, x) for x in body)), ("a2", ((True, "a1"),))] + extra
+            for co in ([["a1", "a2", "a3"], ["a1", "a2", "a3", "a4"], []] if co_variants else [[]]):
+                p = {"clauses": base, "co": co}
+                if no_mixed_cycles(p): out.append(p)
+    for i, p in enumerate(out): p["id"] = 5000000 + i
+    return out
+
 def to_tla_json(p, goals):
     return {"id": p["id"],
             "clauses": [{"head": h, "body": [{"pos": pos, "a": a} for pos, a in b]} for h, b in p["clauses"]],
